@@ -155,6 +155,13 @@ def coq_property(pid, timeout=2400):
     if closed < len(prints):
         res['problems'].append('only %d of %d Print Assumptions are closed' % (closed, len(prints)))
     res['problems'] += coq_audit_sources()
+    if os.environ.get('VERIF_TIER') == 'thorough' and not res['problems']:
+        # independent re-check of the compiled theorem file and everything it depends on
+        rc, out = sh(['timeout', '1500', 'coqchk', '-silent', '-o', '-Q', '.', 'Borsh', 'Borsh.Properties.%s' % pid], cwd=COQ, timeout=1600)
+        res['coqchk'] = out[-1500:]
+        if rc != 0 or 'Axioms: <none>' not in out or 'type-in-type: <none>' not in out \
+                or 'unsafe (co)fixpoints: <none>' not in out or 'positivity is assumed: <none>' not in out:
+            res['problems'].append('coqchk does not confirm an axiom-free, fully checked development')
     res['ok'] = not res['problems']
     res['wall_s'] = round(time.time() - t0, 1)
     return res
@@ -326,6 +333,7 @@ def conclude(pid, tier, seed, t0, coq, stats, disagreements, failures, search=No
         'checker_cmd': 'make Properties/%s.vo (coqc 8.16.1, full .vo) + coqc Properties/%s.v with Print Assumptions; source audit for Admitted/admit/Axiom/Parameter/...' % (pid, pid),
         'trusted_base': TRUSTED_BASE,
         'proof_wall_s': coq.get('wall_s'),
+        'coqchk': ('run: ' + ' '.join(coq['coqchk'].split())[-300:]) if coq.get('coqchk') else 'not run in this tier',
         'disagreements_checked': len(disagreements),
     })
     if reported:
